@@ -294,7 +294,8 @@ Theorem smarts_sources_pinned :
   ring_sizes_tests = [("Lt"%string, 3); ("NotEq"%string, 0)] /\ charge_tests = [("Gt"%string, 4); ("Lt"%string, -4)] /\
   st_replace_dict = TokenTables.replace_dict /\ st_not_dict = TokenTables.not_dict /\
   validate_guards = ["value is None"%string; "isinstance(value, int)"%string; "isinstance(value, (tuple, list))"%string] /\
-  hybridization_guards = validate_guards /\ ring_sizes_guards = validate_guards.
+  hybridization_guards = validate_guards /\ ring_sizes_guards = validate_guards /\
+  smarts_cx_radicals_src = TokenTables.cx_radicals_src.
 Proof. repeat split; reflexivity. Qed.
 
 (* the query API setters: None = unconstrained; a bare int in range is the one-value constraint (0 included: "no neighbours",
